@@ -66,10 +66,13 @@ def make_init(c, rng):
     rn = [RNAMES[rng.randrange(2)] for _ in range(n_rdm)]
     mats = np.zeros((n_rdm, n, n))
     nanp = rng.choice([0, 0, 0.15])
+    zerop = rng.choice([0, 0.1, 0.2])
     for k in range(n_rdm):
         for i in range(n):
             for j in range(i + 1, n):
                 v = tag(rids[k], pids[i], pids[j]) if rng.random() >= nanp else np.nan
+                if rng.random() < zerop:
+                    v = 0.0      # exact zero between two distinct conditions
                 mats[k, i, j] = mats[k, j, i] = v
     wrap = (lambda x: np.array(x)) if c['desctype'] == 'array' else (lambda x: list(x))
     r = rsatoolbox.rdm.RDMs(
@@ -80,9 +83,27 @@ def make_init(c, rng):
     return r
 
 
+def source_values(init):
+    """(rid, a, b) with a<b -> value the source object holds for that RDM and pair of condition ids"""
+    n0 = len(init['pats'])
+    pid0 = [t[0] for t in init['pats']]
+    src = {}
+    for it in init['items']:
+        k = 0
+        for i in range(n0):
+            for j in range(i + 1, n0):
+                src[(it[0][0], min(pid0[i], pid0[j]), max(pid0[i], pid0[j]))] = it[1][k]
+                k += 1
+    return src
+
+
+def expected(src, rid, a, b):
+    return None if a == b else src.get((rid, min(a, b), max(a, b)))
+
+
 # ------------------------------------------------------------------------------ operations
-PCOLS = ['pid', 'cond', 'grp']
-RCOLS = ['rid', 'rname']
+PCOLS = ['pid', 'cond', 'grp', 'index']
+RCOLS = ['rid', 'rname', 'index']
 
 
 def pvals(c, r, col):
@@ -92,6 +113,10 @@ def pvals(c, r, col):
 
 def enc_pval(c, col, v):
     return enc_cond(c, v) if col == 1 else int(v)
+
+
+def fcol(col, nreal):
+    return 'None' if col >= nreal else f'(Some {fnat(col)})'
 
 
 def enc_rval(col, v):
@@ -126,7 +151,7 @@ def apply_random_op(c, rng, r):
     for _ in range(50):
         kind = rng.choice(kinds)
         if kind in ('subset_pattern', 'subsample_pattern'):
-            col = rng.randrange(3)
+            col = rng.randrange(4)
             present = sorted(set(pvals(c, r, col)))
             if kind == 'subset_pattern':
                 vals = rng.sample(present, rng.randint(1, len(present)))
@@ -142,7 +167,7 @@ def apply_random_op(c, rng, r):
             new = r.subsample_pattern(PCOLS[col], as_arg(rng, vals))
             return ['SubsamplePat', col, [enc_pval(c, col, v) for v in vals]], new
         if kind in ('subset', 'subsample'):
-            col = rng.randrange(2)
+            col = rng.randrange(3)
             dv = [core._k(x) for x in r.rdm_descriptors[RCOLS[col]]]
             present = sorted(set(dv))
             if kind == 'subset':
@@ -325,8 +350,10 @@ def fobs(st):
 
 def fop(op):
     k = op[0]
-    if k in ('SubsetPat', 'SubsamplePat', 'Subset', 'Subsample'):
-        return f'(O{k} {fnat(op[1])} {fzlist(op[2])})'
+    if k in ('SubsetPat', 'SubsamplePat'):
+        return f'(O{k} {fcol(op[1], 3)} {fzlist(op[2])})'
+    if k in ('Subset', 'Subsample'):
+        return f'(O{k} {fcol(op[1], 2)} {fzlist(op[2])})'
     if k == 'GetItem':
         return f'(OGetItem {fnatlist(op[1])})'
     if k == 'Reorder':
@@ -371,16 +398,7 @@ def oracle(c, o):
     init = o['init']
     src_pats = {tuple(t) for t in init['pats']}
     src_rdms = {tuple(it[0]) for it in init['items']}
-    n0 = len(init['pats'])
-    pid0 = [t[0] for t in init['pats']]
-    srcnan = set()
-    for it in init['items']:
-        k = 0
-        for i in range(n0):
-            for j in range(i + 1, n0):
-                if it[1][k] is None:
-                    srcnan.add((it[0][0], min(pid0[i], pid0[j]), max(pid0[i], pid0[j])))
-                k += 1
+    srcnan = source_values(init)
     if c['kind'] == 'partials':
         return oracle_partials(c, o, srcnan)
     prev = init
@@ -400,7 +418,7 @@ def oracle(c, o):
             for i in range(n):
                 for j in range(n):
                     a, b = st['pats'][i][0], st['pats'][j][0]
-                    want = 0 if i == j else (None if (a == b or (rid, min(a, b), max(a, b)) in srcnan) else tag(rid, a, b))
+                    want = 0 if i == j else expected(srcnan, rid, a, b)
                     if it[2][i][j] != want:
                         return (f'step {si} {op[0]}: matrix entry ({i},{j}) of rdm {rid} is {it[2][i][j]}, source value '
                                 f'for conditions ({a},{b}) is {want}')
@@ -412,22 +430,24 @@ def oracle(c, o):
         pp, pr = [tuple(t) for t in prev['pats']], [tuple(it[0]) for it in prev['items']]
         np_, nr = [tuple(t) for t in st['pats']], [tuple(it[0]) for it in st['items']]
         k = op[0]
+        pk = lambda col: prev['pidx'] if col >= 3 else [t[col] for t in prev['pats']]
+        rk = lambda col: prev['ridx'] if col >= 2 else [it[0][col] for it in prev['items']]
         if k == 'SubsetPat':
-            want = [t for t in pp if t[op[1]] in op[2]]
-            if np_ != want or nr != pr:
-                return f'step {si} subset_pattern: conditions {np_} != requested {want}'
+            idx = [i for i, key in enumerate(pk(op[1])) if key in op[2]]
+            if np_ != [pp[i] for i in idx] or nr != pr:
+                return f'step {si} subset_pattern: conditions {np_} != requested {[pp[i] for i in idx]}'
         elif k == 'SubsamplePat':
-            idx = sorted(i for v in op[2] for i, t in enumerate(pp) if t[op[1]] == v)
+            idx = sorted(i for v in op[2] for i, key in enumerate(pk(op[1])) if key == v)
             if np_ != [pp[i] for i in idx] or nr != pr:
                 return f'step {si} subsample_pattern: conditions {np_} != requested {[pp[i] for i in idx]}'
             if st['pidx'] != [prev['pidx'][i] for i in idx]:
                 return f"step {si} subsample_pattern: index descriptor {st['pidx']} != source indices {[prev['pidx'][i] for i in idx]}"
         elif k == 'Subset':
-            want = [t for t in pr if t[op[1]] in op[2]]
-            if nr != want or np_ != pp:
-                return f'step {si} subset: rdms {nr} != requested {want}'
+            idx = [i for i, key in enumerate(rk(op[1])) if key in op[2]]
+            if nr != [pr[i] for i in idx] or np_ != pp:
+                return f'step {si} subset: rdms {nr} != requested {[pr[i] for i in idx]}'
         elif k == 'Subsample':
-            idx = [i for v in op[2] for i, t in enumerate(pr) if t[op[1]] == v]
+            idx = [i for v in op[2] for i, key in enumerate(rk(op[1])) if key == v]
             if nr != [pr[i] for i in idx] or np_ != pp:
                 return f'step {si} subsample: rdms {nr} != requested {[pr[i] for i in idx]}'
             if st['ridx'] != [prev['ridx'][i] for i in idx]:
@@ -500,7 +520,7 @@ def oracle_partials(c, o, srcnan):
         for i in range(n):
             for j in range(i + 1, n):
                 a, b = want_p[i], want_p[j]
-                want = tag(rid, a, b) if (a in own and b in own and (rid, min(a, b), max(a, b)) not in srcnan) else None
+                want = expected(srcnan, rid, a, b) if (a in own and b in own) else None
                 if it[1][k] != want:
                     return f'from_partials: rdm {rid} pair ({a},{b}) is {it[1][k]}, expected {want}'
                 k += 1
